@@ -77,6 +77,7 @@ pub fn cancel_idle(i: u8, cancel: bool) {
 
 fn on_idle(id: usize) {
     let ops = w(|w| {
+        super::exec::close_window(w);
         w.tick();
         w.count("idle_ran");
         let d = w.dispatch_no;
